@@ -724,6 +724,30 @@ def scenario(name, rng):
         r1 = rng.uniform(0.6e-9, 1.0e-9)
         m.PBM[0].LoadDistributionFunction(lambda r, r1=r1: 1e18 * np.exp(-((r - r1) / 0.1e-9) ** 2))
         return m, 3600 * 5
+    if name == 'almgsi-2phase-faults':
+        # two phases (loaded distributions) with transient backend failures of the growth request
+        m = _almgsi(rng.choice([['MGSI_B_P', 'MG5SI6_B_DP'], ['MG5SI6_B_DP', 'B_PRIME_L']]), True, rng.getrandbits(20))
+        start = rng.randint(6, 30)
+        m.therm = FaultyTherm(m.therm, set(start + k for k in rng.sample(range(0, 80), rng.randint(5, 12))))
+        return m, 3600 * 50
+    if name == 'almgsi-2phase-grids':
+        # two phases on grids with DIFFERENT class counts and ranges (per-phase setPBMParameters)
+        phs = ['MGSI_B_P', 'MG5SI6_B_DP']
+        m = _almgsi(phs, False, rng.getrandbits(20))
+        b0, b1 = rng.choice([(75, 120), (60, 75), (40, 90)])
+        m.setPBMParameters(cMin=1e-10, cMax=1e-8, bins=b0, minBins=b0 * 2 // 3, maxBins=b0 * 4 // 3, phase=phs[0])
+        m.setPBMParameters(cMin=1e-10, cMax=rng.choice([6e-9, 1e-8]), bins=b1, minBins=b1 * 2 // 3, maxBins=b1 * 4 // 3, phase=phs[1])
+        return m, 3600 * 50
+    if name == 'nicral-lean-fresh':
+        # a lean alloy outside the two-phase region at setup(), on a thermodynamics object that has computed nothing yet
+        vlib.use_repo()
+        from kawin.tests.datasets import NICRAL_TDB
+        from kawin.thermo import MulticomponentThermodynamics
+        th = MulticomponentThermodynamics(NICRAL_TDB, ['NI', 'AL', 'CR'], ['FCC_A1', 'FCC_L12'], drivingForceMethod='tangent')
+        th.setDFSamplingDensity(2000); th.setEQSamplingDensity(500)
+        m = kwnruns.build_ternary(x0=(rng.uniform(0.01, 0.03), rng.uniform(0.01, 0.05)), T=rng.uniform(1050, 1150))
+        m.setThermodynamics(th)
+        return m, 3600 * 10
     if name == 'almgsi-2phase':
         return _almgsi(['MGSI_B_P', 'MG5SI6_B_DP'], False, rng.getrandbits(20)), 3600 * 50
     if name == 'almgsi-2phase-loaded':
@@ -802,6 +826,7 @@ def _one(ctx, res, prop, name, cap, observer, oracles=()):
 # The statements of the composed-step theorems (and of the property clauses they serve), evaluated on the IMPLEMENTATION's own
 # entry/exit states: when the refinement breaks because the code changed, these find the failing step on the real code.
 ORACLES = {
+    'budget':    'Euler steps: the total number of the state handed to postProcess is at most that of the entry state + nucleation rate x the RECORDED step (the end fluxes only remove particles, C02)',
     'fault':     'a growth request answered with "no result" at non-negative driving force keeps the interfacial tables and the growth field of the phase (the run continues from the last valid values, C03/C01)',
     'setuprow':  'the row written by setup() describes the distribution held after setup(): density = M0, mean radius = M1/M0, fraction = scaled M3 (C02)',
     'rows':      'exactly one row appended per accepted step, stamped old time + accepted step, strictly later, not past the end time (C03)',
@@ -898,15 +923,34 @@ def step_oracles(res, rec, cfg, name, which):
             if abs(T - Tl) > cfg['maxTempChange'] * (1 + 1e-12):
                 res.violate('composed:lookup-table-stale', 'the interfacial-composition table in use after the step was computed %.3f K away from the recorded '
                             'temperature (maxTempChange %.3g)' % (abs(T - Tl), cfg['maxTempChange']), dict(case, T=T, table_T=Tl))
+    if 'budget' in which:
+        for i, st in enumerate(steps):
+            if len(st['eval_ans']) != 1 or st.get('xNew') is None:
+                continue
+            dt = st['post']['hist'][0]['time'] - st['pre']['hist'][0]['time']
+            for p, pp in enumerate(st['pre']['ph']):
+                x0 = np.asarray(pp['psd'], dtype=float).copy()
+                x0[:pp['rdfIdx'] + 1] = 0; x0[np.asarray(pp['size']) < cfg['minRadius']] = 0
+                xn = np.asarray(st['xNew'][p], dtype=float)
+                nr = st['pre']['hist'][0]['ph'][p]['nucRate']
+                if len(xn) == len(x0) and x0.min() >= 0 and nr >= 0:
+                    bound = float(x0.sum()) + nr * dt
+                    if float(xn.sum()) > bound * (1 + 1e-9) + 1e-300:
+                        res.violate('composed:density-rises-more-than-nucleation', 'the state handed to postProcess holds more particles than the entry state + '
+                                    'nucleation rate x recorded step', dict(scenario=name, step=i, phase=p, dt=dt, nucRate=nr, t=st['post']['hist'][0]['time']),
+                                    float(xn.sum()) - float(x0.sum()), nr * dt)
     if 'fault' in which:
         for i, st in enumerate(steps):
             pa = st.get('post_ans')
             if not pa or len(st['eval_ans']) != 1:
                 continue
+            # a grid change of ANY phase ends with a growth-rate call for all phases, which may legitimately refresh the tables
+            if any(a['bins'] != b['bins'] for a, b in zip(st['pre']['ph'], st['post']['ph'])) or \
+                    any(u is not None and u['regrow']['asked'] for u in st['upd']):
+                continue
             for p, an in enumerate(pa['ph']):
                 yp = st['post']['hist'][0]['ph'][p]
-                if an.get('multi_asked') and an['multi'] is None and yp['dG'] >= 0 and st['post']['ph'][p]['bins'] == st['pre']['ph'][p]['bins'] \
-                        and not (st['upd'][p] and (st['upd'][p]['table'] or len(st['upd'][p]['xaNew']))):
+                if an.get('multi_asked') and an['multi'] is None and yp['dG'] >= 0:
                     a, b = st['pre']['ph'][p], st['post']['ph'][p]
                     for k in ('xaT', 'xbT', 'growth'):
                         if not np.array_equal(np.asarray(a[k]), np.asarray(b[k])):
